@@ -170,9 +170,6 @@ impl Printer {
         self.out.push_str(text);
         let nl = self.nl();
         self.out.push_str(nl);
-        if self.st.compact && !self.noisy() {
-            // keep compact bodies readable: nothing
-        }
     }
 
     fn attr(&mut self, a: &Attr, inner: bool, indent: usize) {
